@@ -33,7 +33,7 @@ CLAIMED.update({
   "Krill.tla models CAs, delegation, key states, configured ROAs, what each CA publishes and the follow-up tasks of every change, at the grain of one API command / one background task. TLC checks exhaustively (bounded) that in every settled state the relying-party view derived from the published state is clean and the validated route origins are exactly the configured ones covered by a current certificate. The same spec judges the real code: TLC-generated behaviours (API calls interleaved with single named tasks and settle points) run on a real Krill; after every event the projected state must be exactly the successor the spec allows, every file under a key must be on its manifest and vice versa, and a relying-party walk over the real repository (rpki crate validation) must yield exactly the VRPs the spec derives and no problem in settled states.",
   "§6 C01, §4.3"),
  "C02": krill_claim(
-  "Same model and binding as C01. Decides: every newly issued child certificate is within entitlement and issuer certificate (step property), no published child certificate exceeds the publisher's own current certificate whenever its publication is up to date, a settle (refresh rounds + tasks to a fixed point, bounded to 8 rounds on the real code) leaves every active child with exactly the offered resources and no open request, and another round changes nothing (the harness's fixed point must be a Settled state of the spec). 'Converges' is also a temporal property (MC_Krill_live: once the environment is done, every CA ends up for good with exactly what its parent offers, no open request and the parent issuing what the CA holds) that TLC checks under weak fairness of the background tasks and the periodic refresh, without state constraint; a false temporal property must be refuted on every run. Hierarchies four levels deep (theme deep) include the removal of a parent by a CA that has children. The check for inactive children (Task::SuspendChildrenIfNeeded with a threshold of one second, theme autosus) suspends every child with certificates that the parent has not heard of, at several levels at once, except those whose record still carries the mark of an earlier such suspension; the children are re-certified when they call in. Request limits, mapped class names and the signed RFC 6492 path are covered by children that are not hosted by the instance (Foreign in Krill.tla: the harness plays the child: list, issue with an arbitrary resource limit, revoke; the certificate carries exactly the limit, a limit outside the offer is refused, shrinking / re-issue at a key activation / suspension apply to such certificates like to any other).",
+  "Same model and binding as C01. Decides: every newly issued child certificate is within entitlement and issuer certificate (step property), no published child certificate exceeds the publisher's own current certificate whenever its publication is up to date, a settle (refresh rounds + tasks to a fixed point, bounded to 8 rounds on the real code) leaves every active child with exactly the offered resources and no open request, and another round changes nothing (the harness's fixed point must be a Settled state of the spec). 'Converges' is also a temporal property (MC_Krill_live: once the environment is done, every CA ends up for good with exactly what its parent offers, no open request and the parent issuing what the CA holds) that TLC checks under weak fairness of the background tasks and the periodic refresh, without state constraint; a false temporal property must be refuted on every run. Hierarchies four levels deep (theme deep) include the removal of a parent by a CA that has children. The check for inactive children (Task::SuspendChildrenIfNeeded with a threshold of one second; a directed behaviour and an exhaustive configuration) suspends every child with certificates that the parent has not heard of, at several levels at once, except those whose record still carries the mark of an earlier such suspension; the children are re-certified when they call in. Request limits, mapped class names and the signed RFC 6492 path are covered by children that are not hosted by the instance (Foreign in Krill.tla: the harness plays the child: list, issue with an arbitrary resource limit, revoke; the certificate carries exactly the limit, a limit outside the offer is refused, shrinking / re-issue at a key activation / suspension apply to such certificates like to any other).",
   "§6 C02, §4.3"),
  "C03": krill_claim(
   "Same model and binding as C01. On the recorded traces TLC keeps, per real key, the history of every object identity (issuer key + serial) ever current under the key and requires in every state that whatever is no longer current is on that key's CRL as long as the key publishes one, that nothing current is revoked, and that manifest and CRL numbers agree; withdrawn objects are gone because the projected publication content must equal the spec's. Histories cover re-issue, ROA removal, child removal/suspension, resource loss, CA deletion, removal of a parent by a CA that has children and grandchildren (everything issued under the class goes with it, level by level; also in the middle of a roll and with a suspended grandchild), suspension of inactive children by the background check, key retirement by a roll, and revocation requests of a child that is not hosted by the instance (signed RFC 6492 messages under the class name the child was told, also a mapped one, also after the parent's class went away and came back under another name).",
